@@ -12,6 +12,7 @@ mod runner;
 
 mod c06_layout;
 mod c14_blk;
+mod c16_net;
 
 use proto::RunResult;
 use runner::{Ctx, Tier};
@@ -85,6 +86,7 @@ fn main() {
             let (cases, rule, exhaustive, extra) = match prop.as_str() {
                 "C06" => c06_layout::run(&ctx),
                 "C14" => c14_blk::run(&ctx),
+                "C16" => c16_net::run(&ctx),
                 _ => {
                     eprintln!("unknown property {}", prop);
                     std::process::exit(2)
